@@ -5,6 +5,7 @@ import Just.Model.Lexer
 import Just.Model.Render
 import Just.Model.Body
 import Just.Model.Syntax
+import Just.Model.Unindent
 open Lean Just
 
 /-- first entry whose key occurs in `k` (the fake shell's matching rule) -/
@@ -311,6 +312,10 @@ def handleSyntax (j : Json) : Except String Json := do
     return Json.mkObj [("ast", exprDump e), ("rest", toJson rest.length), ("printed", Json.arr (printed.map tkToJson).toArray),
       ("reparse_same", same)]
 
+def handleUnindent (j : Json) : Except String Json := do
+  let src ← j.getObjValAs? String "src"
+  return Json.mkObj [("text", String.ofList (Unindent.unindent src.toList))]
+
 def handle (line : String) : Json :=
   match Json.parse line with
   | .error e => Json.mkObj [("fatal", s!"parse: {e}")]
@@ -333,6 +338,7 @@ def handle (line : String) : Json :=
       | "evaluate" => handleEvaluate j
       | "shsplit" => handleShSplit j
       | "lex" => handleLex j
+      | "unindent" => handleUnindent j
       | "syntax" => handleSyntax j
       | "body" => handleBody j
       | "context" => handleContext j
